@@ -74,6 +74,8 @@ func propC01(w *World, r *Report) {
 		r.Assumes(a)
 	}
 	RunLosslessFor(w, r, "C01", newBoundsRun(w))
+	RunSearchFields(w, r, nil)
+	r.Floor("searchfields", 9)
 
 }
 
